@@ -161,6 +161,12 @@ def expand(ctx: Ctx, pid: str, fam: list[dict], rng: random.Random) -> tuple[lis
         rate_bases = [{"ops": ["ok", "ok", "ok"], "links": "none", "phases": ["coverage", "fuzzing"], "workers": w, "max_failures": 0,
                        "cof": False, "unique": False, "rate": r} for w, r in ([(1, 15), (3, 15)] if quick else [(1, 10), (2, 20), (3, 15), (4, 30), (4, 10)])]
         bases = bases + rate_bases
+        # an explicit max_examples equal to Hypothesis' built-in default while a profile with a larger value is active
+        bases = bases + [{"ops": ["ok"], "links": "none", "phases": ["fuzzing"], "workers": 1, "max_failures": 0, "cof": False,
+                          "unique": False, "profile_max": 130}]
+        # Ctrl-C at the consumer of the stateful phase (a stop request like EventStream.stop)
+        bases = bases + [{"ops": ["ok"], "links": lk, "phases": ["stateful"], "workers": 1, "max_failures": 0, "cof": False,
+                          "unique": False, "ctrlc_positions": True} for lk in ("ok", "bad")]
         # stateful phase + --max-failures + a transient internal error (errored scenarios vs. the limit)
         bases = bases + [{"ops": ["ok"], "links": "bad", "phases": ["stateful"], "workers": 1, "max_failures": 1, "cof": False,
                           "unique": False, "mf_fault": occ} for occ in ((1, 2) if quick else (1, 2, 3, 4, 6))]
@@ -173,6 +179,9 @@ def expand(ctx: Ctx, pid: str, fam: list[dict], rng: random.Random) -> tuple[lis
             d["max_examples"] = 8
         d["step_count"] = rng.choice([2, 3, 6]) if pid == "C12" else 3
         d["params"] = rng.random() < 0.5
+        if d.get("profile_max"):
+            d["max_examples"] = 100
+            d["params"] = True
         plain.append(d)
     return plain, [recipe] * len(plain)
 
@@ -185,8 +194,10 @@ def variants(base: dict, ref: dict, recipe: dict, rng: random.Random) -> list[di
     out = []
     nev = n_events(ref)
     stops = list(range(1, nev))  # stopping after the last event is a no-op
-    if base.get("rate"):
+    if base.get("rate") or base.get("profile_max"):
         return []
+    if base.get("ctrlc_positions"):
+        return [dict(base, ctrlc_at=k) for k in (2, 4, 6, 9, 13, 18)]
     if base.get("mf_fault"):
         return [dict(base, fault={"site": "checks.run", "occ": base["mf_fault"], "exc": "Exception"}, max_examples=6)]
     if recipe["stop"] != "all":
